@@ -316,6 +316,8 @@ def run(P, rep, tier):
                        'Subscripts of array fields whose element count the owner records (derived from the allocation sites) are compared with the relational bounds the dominating comparisons '
                        'establish: a tightest limit of `<= count` is an index one past the allocation (R13.21). Every function below the diagnostic printer in the call graph is shown to call no diagnostic function; where one does, the recursion diagnostic printer -> column computation -> examining function -> diagnostic is '
                        'proved to make progress: reported position not after the cursor (interpreted on every path), decoder applied strictly inside the window, window ends at the reported position (R13.22). '
+                       'Every loop that runs while a diagnostic is printed moves one of the locals its condition tests by a non-zero amount on every path that completes an iteration; computed amounts are '
+                       'bounded by the return values of the callee and the dominating guards (R13.39). '
                        'The bit-field templates\' immediates are encodable (obligations of C04 re-issued, R13.23). '
                        'Tokens made after tokenizing keep the file identity of their template (obligations of C18 R18.5 re-issued, R13.24). The entry function of the code generator is '
                        'interpreted on one-definition programs per witness parameter type and register pressure: no internal error, no failing assertion (R13.25). Values of nullable-table '
@@ -348,6 +350,7 @@ def run(P, rep, tier):
                         'one parameter of the witness type after 0, 12 or 14 scalar parameters; gen_stmt and println are opaque',
                         'R13.26: only sources whose table entry has no `implied` kinds are judged (the others are judged at dereferences, R13.1); a parameter counts as stored into a field when the '
                         'store is unconditional; a callee establishes a field when every normal return has assigned it or excluded the kinds for which it is optional',
+                        'R13.39: a loop whose condition reads memory is stuck only on a path without stores and without calls to functions that store; direction of the step and wrap-around are not judged',
                         'R13.22: the printer finds the start of the line at or before the reported position; the nested printer starts from the same line start, so it examines the same bytes in the same order',
                         'facts established in other functions, each confirmed by reading: ' + '; '.join('%s:%s %s (%s)' % (k[0], k[1], k[2], v) for k, v in sorted(ASSUMED.items()))]
     W = _world(P)
@@ -394,6 +397,7 @@ def run(P, rep, tier):
     r1320(W, engs, rep)
     r1321(W, engs, rep)
     r1322(P, W, rep)
+    r1339(P, W, rep)
     r1323(P, rep, tier)
     r1324(P, rep)
     r1325(P, W, rep)
@@ -3228,6 +3232,80 @@ def r1322(P, W, rep):
         un, u, fd = fdef[D]
         rep.undecided('R13.22', '%s:%s:re-entry-not-recognised' % (un, D), '%s() can run below the diagnostic printer and issues a diagnostic (%s), but it is not reached through a call chain '
                       'printer -> window function -> examining function that the rule understands' % (D, ', '.join(sorted(set(c.callee() for c in closing[D])))), where='%s:%d' % (un, fd.line))
+
+
+def r1339(P, W, rep):
+    """printing a diagnostic terminates (loops): a loop of the diagnostic functions, the printer or a function the printer runs whose condition tests locals that the loop
+    itself moves (cursor, index) must move at least one of them on every path that completes an iteration; an amount that is computed (result of a function, of a
+    comparison, of a conditional expression) must exclude 0 under the guards that dominate the step.  Otherwise the printer examines the same byte for ever: the compiler
+    hangs after the source line instead of printing the message and exiting."""
+    rep.rule('R13.39', 'every loop that runs while a diagnostic is printed (diagnostic functions, verror_at and the call graph below it) makes progress: on every path that completes an '
+                       'iteration at least one of the locals the loop condition tests is changed by an amount that is never 0 (constants, or computed amounts whose range -- return values '
+                       'of the callee over all its paths, results of comparisons and conditional expressions, narrowed by the dominating guards -- excludes 0); where an iteration can be '
+                       'completed with every tested local unchanged and nothing the condition reads stored to, the loop does not end and the compiler hangs instead of reporting. The same '
+                       'is reported for any other loop of the compiler for which the analysis finds such a path (loops it cannot follow outside the printer are not judged)', floor=5)
+    from .. import lib_c13prog as LP
+    PR = 'verror_at'
+    fdef, callees = {}, {}
+    for un, u in sorted(W.units.items()):
+        for f, fd in u.functions.items():
+            if len(W.fn_unit.get(f, ())) == 1:
+                fdef[f] = (un, u, fd)
+                callees[f] = set(c.callee() for c in fd.calls() if c.callee())
+    if PR not in fdef:
+        rep.undecided('R13.39', 'tokenize.c:verror_at', 'the diagnostic printer verror_at() vanished')
+        return
+    below, work = set(), [PR]
+    while work:
+        g = work.pop()
+        for h in callees.get(g, ()):
+            if h in fdef and h not in below:
+                below.add(h)
+                work.append(h)
+    entries = set(f for f in fdef if PR in callees[f])
+    scope = below | entries | set([PR])
+    world = LP.World(W)
+    summary, nloops = {}, 0
+    for f in sorted(fdef):
+        un, u, fd = fdef[f]
+        if not any(x.kind in ('WhileStmt', 'ForStmt', 'DoStmt') for x in fd.walk()):
+            continue
+        inscope = f in scope
+        try:
+            ex = LP.Exec(world, un, u, f).run()
+        except (RecursionError, IndexError, KeyError, TypeError, AttributeError) as e:
+            if inscope:
+                rep.undecided('R13.39', '%s:%s:loops' % (un, f), 'the loops of %s() cannot be followed: %s %s' % (f, type(e).__name__, e), where='%s:%d' % (un, fd.line))
+            continue
+        seen = {}
+        for rec in ex.loops:
+            cname = '+'.join(rec['cursors']) or 'none'
+            base = '%s:%s:loop-over-%s' % (un, f, cname)
+            seen[base] = seen.get(base, 0) + 1
+            key = base if seen[base] == 1 else '%s:(%s)' % (base, rec['cond'].replace(' ', '')[:60])
+            where = '%s:%d' % (un, rec['node'].line)
+            nloops += 1
+            if rec['verdict'] == 'stuck':
+                amounts = ', '.join('`%s` changes by an amount in %s' % kv for kv in sorted(rec['amounts'].items()))
+                rep.ob('R13.39', key + ':step-may-be-zero', False,
+                       'the loop `%s` in %s() can complete an iteration with every local its condition tests unchanged (%s) and nothing else the condition reads is stored to on that path: '
+                       'the next iteration is the same one, the loop never ends%s' % (rec['cond'], f, amounts,
+                       ' -- this code runs while a diagnostic is printed, so the compiler hangs after the source line instead of printing the message and exiting' if inscope else
+                       ' -- the compiler hangs on the input that takes this path'), where=where, facts={'cursors': rec['cursors'], 'amounts': rec['amounts']})
+            elif rec['verdict'] == 'progress':
+                if inscope:
+                    rep.ob('R13.39', key + ':progress', True, '', where=where)
+                summary.setdefault('progress', []).append(key)
+            elif rec['verdict'] == 'unknown':
+                if inscope:
+                    rep.undecided('R13.39', key + ':progress', 'the loop `%s` runs while a diagnostic is printed: %s' % (rec['cond'], rec['why']), where=where)
+                summary.setdefault('not_followed', []).append(key)
+            else:
+                if inscope and rec['why'].startswith('the condition tests a variable whose address'):
+                    rep.undecided('R13.39', key + ':progress', 'the loop `%s` runs while a diagnostic is printed: %s' % (rec['cond'], rec['why']), where=where)
+                summary.setdefault('not_judged', []).append(key + ' (' + rec['why'] + ')')
+    rep.extra['R13.39'] = {'functions_in_printer_scope': sorted(scope), 'loops_seen': nloops, 'proved_progress': len(summary.get('progress', ())),
+                           'not_followed_outside_printer': len(summary.get('not_followed', ())), 'not_judged': len(summary.get('not_judged', ()))}
 
 
 def r1323(P, rep, tier):
